@@ -263,6 +263,18 @@ impl TopicCleanTracker {
         self.store.persist_updates(&updates)
     }
 
+    /// Persist the current state of every topic synchronously.
+    pub fn flush_all(&self) -> std::io::Result<()> {
+        let snapshot = match self.states.read() {
+            Ok(guard) => guard
+                .iter()
+                .map(|(topic, state)| (topic.clone(), state.snapshot()))
+                .collect::<Vec<_>>(),
+            Err(_) => return Ok(()),
+        };
+        self.store.persist_updates(&snapshot)
+    }
+
     #[cfg(test)]
     pub fn force_flush_for_test(&self) -> std::io::Result<()> {
         let snapshot = {
